@@ -790,6 +790,7 @@ func TestC07(t *testing.T) {
 		"knowledge_mode_identify": 1000, "knowledge_mode_none": 1000, "knowledge_mode_accurate": 1000, "knowledge_mode_stale": 1000,
 		"knowledge_mode_superset": 1000, "knowledge_mode_partial": 1000,
 		"opens_basic_to_basic": 5000, "opens_basic_to_blank": 500, "opens_blank_to_basic": 500,
+		"rounds_on_hosts_without_resource_manager": 300,
 	} {
 		min = max(1, min*n/4000) // race pass: fewer cases; thorough: more
 		r.Require(k, min)
